@@ -190,3 +190,67 @@ def run_val(case, world=None, custom_fc=None):
         return {"ctor": exc_json(exc)}
     errs, stop = consume(v.iter_errors(inst), case.get("budget"))
     return {"errs": [err_json(e) for e in errs], "stop": stop, "st": state_json(res, world)}
+
+
+def run_hist(case, world=None, custom_fc=None, observe=None):
+    """mirror of Channels.runHIST: a sequence of operations on ONE validator object"""
+    tag = case["cls"]
+    cls = DRAFTS[tag] if isinstance(tag, str) else tag
+    schema = case["schema"]
+    try:
+        res = make_resolver(cls, schema, case.get("resolver"), world)
+        v = cls(schema, resolver=res, format_checker=make_fc(case.get("fc"), tag, custom_fc))
+    except Exception as exc:       # noqa: BLE001
+        return {"ctor": exc_json(exc)}
+    out = []
+    for op in case["ops"]:
+        r = do_op(v, op)
+        st = state_json(res, world)
+        out.append({"r": r, "st": st})
+        if observe is not None:
+            observe(v, op, r, st)
+    return out
+
+
+def do_op(v, op):
+    kind = op[0]
+    try:
+        if kind == "isValid":
+            return ["verdict", v.is_valid(op[1])]
+        if kind == "exhaust":
+            errs, stop = consume(v.iter_errors(op[1]), None)
+            return ["errors", [err_json(e) for e in errs], stop]
+        if kind == "validate":
+            try:
+                v.validate(op[1])
+            except E.ValidationError as e:
+                r = ["invalid", err_json(e)]
+                del e
+                return r
+            return ["valid"]
+        if kind == "take":
+            if op[1] == 0:
+                it = v.iter_errors(op[2])
+                it.close()
+                return ["errors", [], ["budget"]]
+            errs, stop = consume(v.iter_errors(op[2]), op[1])
+            return ["errors", [err_json(e) for e in errs], stop]
+        if kind == "drop":
+            it = v.iter_errors(op[2])
+            errs = []
+            stop = ["budget"]
+            try:
+                for _ in range(op[1]):
+                    errs.append(next(it))
+            except StopIteration:
+                stop = ["done"]
+            except Exception as exc:   # noqa: BLE001
+                stop = ["raised", exc_json(exc)]
+            del it                      # abandoned, not closed: CPython finalises it now (A-gc)
+            return ["errors", [err_json(e) for e in errs], stop]
+        if kind == "resolve":
+            url, doc = v.resolver.resolve(op[1])
+            return ["resolved", url, doc]
+    except Exception as exc:           # noqa: BLE001
+        return ["raised", exc_json(exc)]
+    raise ValueError(op)
